@@ -69,6 +69,75 @@ def extract():
     return rel
 
 
+def extract_concrete():
+    """fallback when the tracer branches on the counter value (so it cannot be executed with a z3 Int): run the real
+    trace() at concrete counter values and fit the affine entry / exit relation the symbolic extraction would have read
+    off; the fit is checked on every sample.  Weaker than extract(): the relation is only validated at the samples."""
+    import autograd.tracer as tr
+    from autograd.core import VJPNode
+
+    ts = tr.trace_stack
+    saved = ts.top
+    top, mid = z3.Int("top"), z3.Int("mid")
+    rec = {}
+
+    class Probe(Exception):
+        pass
+
+    def run(t0, m0, fail):
+        ts.top = t0
+
+        def fun(box):
+            rec["id"] = box._trace
+            rec["inside"] = ts.top
+            if m0 is not None:
+                ts.top = m0
+            if fail:
+                raise Probe()
+            return box
+
+        try:
+            tr.trace(VJPNode.new_root(), fun, 1.0)
+        except Probe:
+            pass
+        return ts.top
+
+    samples = []
+    try:
+        for t0 in (-1, 0, 2, 5):
+            a = run(t0, None, False)
+            i0, in0 = rec["id"], rec["inside"]
+            b1 = run(t0, t0 + 7, False)
+            b2 = run(t0, t0 + 11, False)
+            c = run(t0, None, True)
+            samples.append((t0, i0, in0, a, b1, b2, c))
+    finally:
+        ts.top = saved
+    t0, i0, in0, a, b1, b2, c = samples[0]
+    did, den = i0 - t0, in0 - t0
+    if b2 - b1 == 4:  # exit is a function of the CURRENT value
+        kind, dex = "function_of_current", b1 - (t0 + 7)
+    elif b1 == b2:
+        kind, dex = "restore_saved", b1 - t0
+    else:
+        raise ExtractionError("exit transition is not affine in the samples")
+    for (t0, i0, in0, a, b1, b2, c) in samples:
+        ok = i0 == t0 + did and in0 == t0 + den and (b1 == t0 + 7 + dex and b2 == t0 + 11 + dex if kind == "function_of_current" else b1 == t0 + dex == b2)
+        if not ok:
+            raise ExtractionError("entry / exit relation is not the same affine map at every sampled counter value")
+    rel = {"id": z3.simplify(top + did), "enter": z3.simplify(top + den), "exit_plain": z3.simplify(top + (samples[0][3] - samples[0][0])),
+           "exit_perturbed": z3.simplify((mid if kind == "function_of_current" else top) + dex), "exit_on_exception": z3.simplify(top + (samples[0][6] - samples[0][0])),
+           "exit_kind": kind, "extraction": "affine fit on concrete counter values -1, 0, 2, 5 (the tracer branches on the counter, symbolic execution not possible)"}
+    if kind == "function_of_current":
+        rel["exit_fn"] = lambda cur, saved_: z3.substitute(rel["exit_perturbed"], (mid, cur))
+    else:
+        rel["exit_fn"] = lambda cur, saved_: z3.substitute(rel["exit_perturbed"], (top, saved_))
+    rel["id_fn"] = lambda cur: z3.substitute(rel["id"], (top, cur))
+    rel["enter_fn"] = lambda cur: z3.substitute(rel["enter"], (top, cur))
+    rel["shared"] = counter_is_shared()
+    return rel
+
+
 def counter_is_shared():
     """two real threads: does thread B observe thread A's modification of the counter?"""
     import autograd.tracer as tr
